@@ -64,7 +64,7 @@ Proof.
 Qed.
 
 Lemma c_newd : commutes (fun _ => (new_table default_capacity, RNone)) (fun _ => ([], RNone)).
-Proof. intros t _. simpl. split; auto. apply new_table_ok. unfold default_capacity. lia. Qed.
+Proof. intros t _. simpl. split; auto. apply new_table_ok. unfold default_capacity, Gen_Hash.gen_default_capacity. lia. Qed.
 
 Lemma c_find k : commutes (fun t => (t, RIter (it_of (find_node t k)))) (fun l => (l, RIter (s_find keqb l k))).
 Proof. intros t Hok. simpl. split; auto. rewrite (find_refines K keqb hash keqb_spec) by auto. reflexivity. Qed.
@@ -237,7 +237,7 @@ Lemma state_ok_upd st x t : state_ok st -> chains_ok t -> state_ok (upd x t st).
 Proof. intros H1 H2. apply Forall_upd; auto. Qed.
 
 Lemma new_default_ok : chains_ok (new_table default_capacity).
-Proof. apply new_table_ok. unfold default_capacity. lia. Qed.
+Proof. apply new_table_ok. unfold default_capacity, Gen_Hash.gen_default_capacity. lia. Qed.
 
 Lemma step_refines kd st o :
   state_ok st ->
